@@ -1,5 +1,6 @@
 import Ruint.Lemmas.FloatTryG
 import Ruint.Lemmas.FloatMsb
+import Ruint.Lemmas.FloatOld
 
 /-!
 # C18 — float conversions round predictably and classify special values
@@ -15,22 +16,10 @@ All theorems hold at every width `bits` (including `0` and `≥ 1024`, where `2^
 namespace Ruint.C18
 open Ruint Ruint.Float
 
-theorem unfold_try (fixed : Bool) (bits x : ℕ) (n : ℕ) :
-    tryFromF64F fixed (n + 1) bits x =
-      if isNaN b64 x = true then .notANumber
-      else if lt b64 x zero = true then
-        .negative (wneg bits (match tryFromF64F fixed n bits (abs b64 x) with
-          | .ok n => n | .tooLarge n => n | _ => 0))
-      else if ge b64 x (exp2Int b64 bits) = true then
-        .tooLarge (match tryFromF64F fixed n bits (fmod b64 x (exp2Int b64 bits)) with
-          | .ok n => n | .tooLarge n => n | _ => 0)
-      else if lt b64 x (half b64) = true then .ok 0 else tfMain fixed bits x := by
-  rw [tryFromF64F]; rfl
-
 /-- NaN (any payload, either sign) ↦ `NotANumber`. -/
 theorem try_from_f64_nan (bits x : ℕ) (h : decode b64 x = .nan) : tryFromF64 bits x = .notANumber := by
   unfold tryFromF64
-  rw [unfold_try]
+  rw [unfold_tryF]
   have : isNaN b64 x = true := by unfold isNaN; rw [h]
   rw [if_pos this]
 
@@ -39,7 +28,7 @@ theorem try_from_f64_negative (bits x : ℕ)
     (h : (∃ m e, decode b64 x = .fin true m e ∧ m ≠ 0) ∨ decode b64 x = .inf true) :
     ∃ w, tryFromF64 bits x = .negative w := by
   unfold tryFromF64
-  rw [unfold_try]
+  rw [unfold_tryF]
   rcases h with ⟨m, e, hx, hm⟩ | hx
   · have h1 : isNaN b64 x = false := isNaN_of_fin x m true e hx
     have h2 : lt b64 x zero = true := (lt_zero_iff x m true e hx).mpr ⟨rfl, hm⟩
@@ -58,7 +47,7 @@ theorem try_from_f64_neg_zero (bits : ℕ) : tryFromF64 bits (2 ^ 63) = .ok 0 :=
 /-- `+∞ ↦ ValueTooLarge` at every width (also where `2^BITS` itself overflows to `+∞`). -/
 theorem try_from_f64_pos_inf (bits : ℕ) : tryFromF64 bits b64.infBits = .tooLarge 0 := by
   unfold tryFromF64
-  rw [unfold_try]
+  rw [unfold_tryF]
   have h1 : isNaN b64 b64.infBits = false := by decide +kernel
   have h2 : lt b64 b64.infBits zero = false := by decide +kernel
   have h3 : ge b64 b64.infBits (exp2Int b64 bits) = true := by
@@ -76,7 +65,7 @@ theorem try_from_f64_pos_inf (bits : ℕ) : tryFromF64 bits b64.infBits = .tooLa
     rcases Nat.lt_or_ge 1023 bits with hb | hb
     · rw [exp2Int_inf bits hb, decode_inf64]
     · rw [exp2Int_eq bits hb, decode_pow2 bits (by omega) (by omega)]
-  rw [h4, unfold_try]
+  rw [h4, unfold_tryF]
   have h5 : isNaN b64 b64.nanBits = true := by decide +kernel
   rw [if_pos h5]
 
@@ -152,6 +141,13 @@ theorem saturating_from_f64_pos_inf (bits : ℕ) :
 `tryFromF64Old` is the model of the code before commit f6c7d9d. The kernel evaluates it on the witnesses:
 `U64::try_from(4503599627370497.0)` returned `2^52 + 2`, and `U53::try_from(2^53 - 1)` was rejected,
 whereas the repaired model (and `try_from_f64_spec`) give the exact integers. -/
+/-- the defect in general: before the repair every integer `m ∈ [2^52, 2^53 - 1)` that fits came back as
+    `m + m % 2`, i.e. odd ones `+1` (the specification, and the repaired code, give `m`). -/
+theorem old_code_tie (bits x m : ℕ) (hx : decode b64 x = .fin false m 0) (hm : 2 ^ 52 ≤ m)
+    (hm' : m + 1 < 2 ^ 53) (hfit : m + 1 < 2 ^ bits) :
+    tryFromF64Old bits x = .ok (m + m % 2) ∧ floorHalf m 0 = m :=
+  ⟨tryFromF64Old_tie bits x m hx hm hm' hfit, by simp [floorHalf]⟩
+
 theorem old_code_violates_spec_witness :
     tryFromF64Old 64 0x4330000000000001 = .ok (2 ^ 52 + 2)
     ∧ decode b64 0x4330000000000001 = .fin false (2 ^ 52 + 1) 0
